@@ -4,7 +4,7 @@
 // store), the real buildSharedTail and the real funnel.(*TaskNode).AppendToEnd, and prints the
 // resulting trees canonically.
 //
-//	h_tree -comp treeshape|appendtoend -seed 1 -n 2000 -out DIR [-replay FILE]
+//	h_tree -comp treeshape|appendtoend|rebuild -seed 1 -n 2000 -out DIR [-replay FILE]
 //
 // Case lines
 //
@@ -13,6 +13,8 @@
 //	appendtoend:  <tree> + <tree>,<tree>,… | <tree> + -
 //
 // (`x` = an id in pl.ConnectorIDs that no connector has, `<id>?` = a processor id nobody created.)
+//	rebuild:      <v1|v2> P=<procs> C=<conn>;… | <step>,<step>,… => <observed>      (see rebuild.go)
+//
 // Result lines: `ok <tree> | <tree> …` (one tree per worker / shared root) or `err:<class>`;
 // appendtoend: `ok <tree>` or `err <receiver tree afterwards>`. Trees are written K<id>(child,child…),
 // K = S | P | D by the Go type of the task (*SourceTask / *ProcessorTask / *DestinationTask).
@@ -32,11 +34,16 @@ type component struct {
 	gen        func(r *gen.Rand, o *gen.Out) string
 	run        func(line string) string
 	nontrivial func(line, res string) bool
+	// trace components: the case line given to the Lean driver is `<line> => <what the real code
+	// did>` and the implementation line is `ok` (the driver accepts the trace against the model
+	// and evaluates the property monitor on it); on -replay only the part before `=>` is used.
+	trace bool
 }
 
 var components = map[string]component{
-	"treeshape":   {genTreeShape, runTreeShape, ntTreeShape},
-	"appendtoend": {genAppend, runAppend, ntAppend},
+	"treeshape":   {gen: genTreeShape, run: runTreeShape, nontrivial: ntTreeShape},
+	"appendtoend": {gen: genAppend, run: runAppend, nontrivial: ntAppend},
+	"rebuild":     {gen: genRebuild, run: runRebuild, nontrivial: ntRebuild, trace: true},
 }
 
 func main() {
@@ -65,17 +72,30 @@ func main() {
 			if l == "" || strings.HasPrefix(l, "#") {
 				continue
 			}
-			res := safeRun(c, l)
-			o.Case(l, res, c.nontrivial(l, res))
+			record(o, c, l)
 		}
 		return
 	}
 	r := gen.New(*seed)
 	for i := 0; i < *n; i++ {
-		l := c.gen(r, o)
+		record(o, c, c.gen(r, o))
+	}
+}
+
+func record(o *gen.Out, c component, l string) {
+	if !c.trace {
 		res := safeRun(c, l)
 		o.Case(l, res, c.nontrivial(l, res))
+		return
 	}
+	head, _, _ := strings.Cut(l, "=>")
+	head = strings.TrimSpace(head)
+	res := safeRun(c, head)
+	impl := "ok"
+	if res == "panic" {
+		impl = "panic"
+	}
+	o.Case(head+" => "+res, impl, c.nontrivial(head, res))
 }
 
 func safeRun(c component, l string) (res string) {
